@@ -29,7 +29,36 @@ import impl
 import c17_gen as G
 from common import cz, cnat, cbool, cfloat, cstr, clist, copt, cpair
 
-THEOREMS = []   # filled below (kept in one place with the Coq file)
+THEOREMS = [
+    'C17_tr_card_m_rejected',
+    'C17_tr_lengths_never_13',
+    'C17_inline_trcl_m_rejected',
+    'C17_inline_fill_m_rejected',
+    'C17_inline_m_rejected',
+    'C17_unknown_mnemonic_rejected',
+    'C17_macro_arity_rejected',
+    'C17_macro_arity_exact',
+    'C17_surface_arity_rejected',
+    'C17_surface_arity_exact',
+    'C17_surplus_surface_params_refuted',
+    'C17_gq_short_params_refuted',
+    'C17_lattice_no_opt_rejected',
+    'C17_to_fillid_no_opt',
+    'C17_lattice_dims_exact',
+    'C17_lattice_dims_rejected',
+    'C17_lattice_trailing_range_refuted',
+    'C17_lattice_nsurf_exact',
+    'C17_facet_range_rejected',
+    'C17_facet_check_exact',
+    'C17_facet_zero_refuted',
+    'C17_fill_array_short_rejected',
+    'C17_fill_array_length_exact',
+    'C17_fill_array_surplus_3_refuted',
+    'C17_imp_unequal_rejected',
+    'C17_mixed_fractions_rejected',
+    'C17_latopt_exact',
+    'C17_latopt_malformed_rejected',
+]
 TRUSTED = [
     'hand-written model coq/C17/Model.v (tied by execution only)',
     'card splitting of MIP (which text is the option part of a cell, the data '
